@@ -369,6 +369,31 @@ CLAIMS = {
              "36 escaping site groups (all fixed, seven fix: commits). GSS-API library errors are not decided.",
         technique="exception-escape analysis over the call graph with dispatch tables as edges + frozen catalogue + tainted-key dict subscripts + length-guard dataflow + wire-layout emptiness",
         note="operations outside the catalogue are assumed total; application callbacks are outside the model"),
+    "C27": dict(
+        text="Partial - the structural clauses only; equivalence of arbitrary read/readline/write/seek/tell/truncate programs "
+             "with a local file is a relation between runtime byte sequences and is NOT decided. Decided: the mode -> "
+             "open-flags table of SFTPClient.open evaluated from its AST over every subset of the mode letters; the server's "
+             "_convert_pflags over all 64 flag subsets; SFTPFile.seek flushes before moving, sets both positions per whence "
+             "class and drops the read-ahead (evaluated), tell() is the logical position; every chunk read advances "
+             "_realpos by its length, _write_all advances both positions by the count written, _read/_write address the "
+             "server at _realpos with the size capped; SFTPHandle.read/write seek exactly when the requested offset differs "
+             "from the tracked one, advance by the bytes moved, forget the offset on error and never seek in append mode "
+             "(evaluated over tracked/requested/append/failure classes); truncate sends st_size only.",
+        technique="finite-quotient evaluation of extracted ASTs (mode letters, flag subsets, whence classes, offset classes) + CFG dominance + cursor-agreement rules",
+        note="each clause is a necessary condition; the behaviour as a whole is a value property outside this family"),
+    "C28": dict(
+        text="Partial - the structural clauses only; correctness under arbitrary short reads, response orders and seeks is "
+             "arithmetic over a runtime map and is NOT decided. Decided: the chunk loops of prefetch() and readv() tile the "
+             "requested range (cursor agreement, min(MAX_REQUEST_SIZE, remaining)); _prefetch_thread registers exactly the "
+             "(offset, length) it requested under the number that request returned, sink = the file, under the lock; "
+             "_async_response stores data under the registered offset, removes the registration under the lock, saves a "
+             "converted STATUS error, raises on other types; _data_in_prefetch_buffers and _read_prefetch are evaluated from "
+             "their ASTs over all orderings of (buffer start, length, position, size) on a small grid with opaque bytes: the "
+             "bytes served are the file's at that position and the remainder still maps every other offset to its byte; "
+             "_read falls back to an ordinary READ at _realpos when the buffers do not hold the position; readv seeks and "
+             "reads each requested range in order.",
+        technique="cursor-agreement rules + value-origin + finite-quotient evaluation of the buffer functions + CFG dominance",
+        note="each clause is a necessary condition; the behaviour as a whole is a value property outside this family"),
     "C03": dict(
         text="Exact decision over a finite abstract domain: the framing arithmetic "
              "of Packetizer._build_packet is interpreted from the current AST for every "
@@ -381,10 +406,5 @@ CLAIMS = {
         ref="DESIGN.md section 5 C03"),
 }
 
-NOT_APPLICABLE = {
-    "C27": "Equivalence of arbitrary read/readline/write/seek/tell/truncate programs with a local "
-           "binary file is a relation between runtime byte sequences and positions; no finite "
-           "abstract domain is complete for it and no clause is a pure code shape.",
-    "C28": "Prefetch/readv correctness is arithmetic over a runtime map of offsets to chunks under "
-           "arbitrary short reads and response orders; deciding it needs the values, not the shape.",
-}
+# every property is claimed at least partially; C27 and C28 decide structural clauses only (see DESIGN section 6)
+NOT_APPLICABLE = {}
